@@ -67,6 +67,17 @@ Proof.
   intros. split; eapply okp_all_calls; [apply procfs_new_ok|apply procfs_new_unmasked_ok].
 Qed.
 
+(* "never becomes a controlling terminal": the flag word of EVERY openat2 call the library can make
+   (syscalls::openat2 adds O_CLOEXEC always, O_NOCTTY unless O_PATH is set -- both regenerated from
+   the source by T0) is close-on-exec and carries O_NOCTTY or O_PATH; the same two conditions are
+   part of [disc_b], i.e. of every theorem above (F-R: before fix 'never let openat2 acquire a
+   controlling terminal', Root::open_subpath on the openat2 backend opened terminals without O_NOCTTY) *)
+Theorem C05_openat2_cloexec_never_ctty :
+  forall fl, has (openat2_flags fl) O_CLOEXEC = true /\
+             (has (openat2_flags fl) O_NOCTTY || has (openat2_flags fl) O_PATH) = true /\
+             (forall c, has fl c = true -> has (openat2_flags fl) c = true).
+Proof. intro fl. split; [apply openat2_flags_cloexec|split; [apply openat2_flags_noctty|intro c; apply openat2_flags_keeps]]. Qed.
+
 Check C05_lookups :
   forall fz cfg pfuel gh ps rs root path nofollow,
     rfd (ph_fd gh) -> rfd root ->
@@ -117,3 +128,4 @@ Print Assumptions C05_mutators.
 Print Assumptions C05_procfs.
 Print Assumptions C05_reopen.
 Print Assumptions C05_constructors.
+Print Assumptions C05_openat2_cloexec_never_ctty.
